@@ -39,7 +39,8 @@ def expected_flags(p, disk):
             fl.append(-1)
             continue
         if c["comp_len"] == 0:
-            fl.append(1 if c["digest"] == bytes(len(c["digest"])) else -1)
+            # no stored bytes: the checksum of nothing (format document), or the all-zero convention used for "no dictionary"
+            fl.append(1 if c["digest"] in (bytes(len(c["digest"])), zckref.H(p.chunk_hash_type, b"")) else -1)
             continue
         fl.append(1 if zckref.H(p.chunk_hash_type, disk[a:b]) == c["digest"] else -1)
     return fl
@@ -400,6 +401,14 @@ class C09(core.Check):
             data = basefiles.write_with_lib(ctx["zh"], os.path.join(self.work, "sparse%d" % k_), b"".join(pieces_), {"comp": 0, "manual": True}, seg_)
             if data:
                 bases.append({"name": "zero-chunks-sparse%d" % k_, "data": data, "content": b"".join(pieces_), "sparse": True})
+        # a chunk without any bytes in the middle of the index, as another writer may emit it (checksum = the checksum of nothing, per the
+        # format document; the library's own convention for "no bytes" is an all-zero checksum - both describe the same, present, chunk)
+        for k_, cht_ in enumerate((1, 3)):
+            d_ = zckref.make_file([b"abcd" * 30, b"", b"xyz" * 50, b"", b"tail" * 9], comp_type=0, chunk_hash_type=cht_)
+            bases.append({"name": "empty-chunk-h%d" % cht_, "data": d_, "content": zckref.decode(d_).content})
+            p_ = zckref.parse(d_)
+            ch_ = [(c["digest"] if c["comp_len"] else bytes(len(c["digest"])), c["udigest"], c["comp_len"], c["len"]) for c in p_.chunks]
+            bases.append({"name": "empty-chunk-zero-digest-h%d" % cht_, "data": basefiles.rebuild(p_, d_, chunks=ch_, data_digest=p_.data_digest), "content": zckref.decode(d_).content})
         words_long = all_words(2 if self.quick else 3)
         out = []
         for bi, b in enumerate(bases):
